@@ -1,8 +1,19 @@
 """C07 — grid cell numbers, rows/columns and coordinates are mutually consistent.
 
-Models: lean/HydroVerif/Model/C07.lean, Model/C07Kernel.lean (c_coord2cell as written now, request-level wrappers);
-lemmas: Lemmas/C07Grid.lean, Lemmas/C07Coord.lean, Lemmas/C07Kernel.lean;
+Models: lean/HydroVerif/Model/C07.lean, Model/C07Kernel.lean (c_coord2cell as written now, request-level wrappers),
+Model/C07Round.lean (both coordinate kernels with the rounding of every arithmetic result explicit; round53 = IEEE double
+rounding on exact rationals), Model/C07State.lean (constructor, request shapes, the grid object as a state machine);
+lemmas: Lemmas/C07Grid.lean, Lemmas/C07Coord.lean, Lemmas/C07Kernel.lean, Lemmas/C07Round.lean;
 theorems: lean/HydroVerif/Props/C07.lean.
+Round 7 additions to the correspondence: the Rat/round53 instance of the rounded kernels is compared with the code (cells
+on every finite point, edges included; centres as rationals): on the unchanged tree they are equal on every one (evidence
+keys round53_model/*); a centre within the coordinate budget / a cell for a point within 1e-9 cell sizes of an edge may
+differ (another evaluation order: recorded), anything else is a disagreement. round53 itself is compared with correctly
+rounded divisions, and the proved error bounds (quotientsR_error, cell2coordR_error, u = 2^-53) are evaluated on the
+doubles (standard_model/* in the evidence); every call history is also sent whole to the model's state machine (`hist`: all answers + final attributes);
+the constructor (`mk`) and the request shapes (`shape`) are compared. Requests OUTSIDE the property's quantifier
+(zero / negative dimensions, cell size <= 0, request shapes the wrappers refuse) are compared with the model for the
+evidence only (outside_quantifier/* counts), never an alarm; grids without cells are asked in a child process.
 Correspondence (Float instance of the model vs the real code through the Python API on the freshly built
 extension; cell numbers, rows/columns, neighbours and error kinds exactly, coordinates bit-equal or within the coordinate budget = max(1e-9 cell sizes, 16 ulp of the largest coordinate of
 the extent) — the unchanged tree is bit-equal, the count of non-bit-equal replies is in the evidence): `Grid.cell2rowcol`, `Grid.neighbours`, `Grid.cell2coord`, `Grid.coord2cell`,
@@ -35,6 +46,18 @@ coord2cell, neighbours, xvalues/yvalues/xlim/ylim); every answer is compared wit
 the geometry and argument content of that moment, and every array returned earlier must keep its value. Numbers
 beyond int64 must be refused or flagged. The robustness theorems' hypothesis (double quotient within 1e-9 cell
 sizes of the exact one) is measured on every constrained point.
+Wide / tall / large shapes (700 / 4000 per run): column or row counts 41..65536 (every count 41..300 in turn, then
+log-uniform, powers of two and ten and their neighbours; a few grids large on both axes), on the cells where the row /
+column split is decided: first, second, last, middle cell of the first, second, last, middle and random rows and their
+neighbours across the row ends, with inside / outside points at those cells. Shapes no array can be allocated for
+(250 / 1500 per run, nrows, ncols up to 2^45, ncells <= 2^61) through the extension module's functions called
+directly (the route Grid.* takes), same cells; points only where the double quotient still resolves 1e-9 cell sizes.
+The raw getnxy: ncols up to 2^45 either sign, cells k*ncols-1, k*ncols, k*ncols+1 for small, random and huge k (to 2^61).
+Call histories also contain runs of neighbours calls (sweeps over consecutive cells across row ends, restarts,
+rejected numbers -1 / ncells / ... in between) and requests on a SECOND live grid that shares ncols / nrows / ncells
+with the first, after which the first grid is asked again. Constructor: every combination of omitted optional
+arguments (nrows=None -> square, cellsize 1, origin 0). Request shapes: scalar, 1-d, pair, [n,2] (answered, checked
+element-wise) and 13 other shapes (evidence only).
 A case is non-trivial when it is a valid cell, or a point the property
 constrains (safely inside a footprint or safely outside the extent).
 """
@@ -48,6 +71,9 @@ from . import common as C
 PID = "C07"
 MARGIN = F(1, 10 ** 9)       # the property's conditioning: 1e-9 relative to the cell size
 MAXCELLS = 400
+U53 = F(1, 2 ** 53)                          # unit roundoff of IEEE double, round to nearest
+QUOT_BUDGET = 2 * U53 + U53 ** 2             # quotBudget u   of Lemmas/C07Round.lean
+CENTRE_BUDGET = 3 * U53 + 3 * U53 ** 2 + U53 ** 3   # centreBudget u
 
 
 # ---------------------------------------------------------------------------------------------
@@ -104,6 +130,65 @@ def gen_cells(rng, nrows, ncols):
         cells = sorted(s)
     invalid = [-1, -2, n, n + 1, -n, 2 * n, n + ncols, -ncols, 10 ** 12, -(10 ** 12), 2 ** 62,
                rng.randint(n, 10 * n + 5), -rng.randint(1, 10 * n + 5)]
+    return cells, invalid
+
+
+def gen_sweep_shapes(rng, n):
+    """wide, tall and large shapes: column / row counts far beyond the 1..40 of gen_shapes (every count 41..300 in
+    turn, then log-uniform up to 65536, powers of two and ten and their neighbours), with few rows / columns on the
+    other axis so that the grid stays small; a few grids large on both axes"""
+    special = sorted({2 ** k + d for k in range(6, 17) for d in (-1, 0, 1)} | {10 ** k + d for k in (2, 3, 4) for d in (-1, 0, 1)}
+                     | {49, 98, 103, 107, 161, 187, 196, 197, 255, 360, 720, 1440, 3600, 43200})
+    out = []
+    i = 0
+    while len(out) < n:
+        r = rng.random()
+        if i < 260:
+            big = 41 + i                                   # every count 41..300, in turn
+        elif r < 0.15:
+            big = rng.choice(special)
+        elif r < 0.40:
+            big = rng.randint(41, 1000)
+        else:
+            big = int(2.0 ** rng.uniform(math.log2(300.0), 16.0))
+        small = rng.choice([1, 2, 2, 3, 4, 5, 6, rng.randint(2, 12)])
+        r = rng.random()
+        if r < 0.6:
+            out.append((small, big))                       # wide
+        elif r < 0.9:
+            out.append((big, small))                       # tall
+        else:
+            out.append((rng.randint(41, 700), min(big, 700)))   # large on both axes
+        i += 1
+    return out[:n]
+
+
+def gen_huge_shapes(rng, n):
+    """shapes no data array can be allocated for (answered through the extension module's functions directly):
+    nrows, ncols up to 2^45 with nrows*ncols <= 2^61 (every row and column number is an exact double)"""
+    out = [(3, 2 ** 31), (2 ** 31, 3), (2 ** 31 - 1, 2 ** 30 + 1), (70000, 70000), (2, 2 ** 32 + 1), (2 ** 16 + 1, 2 ** 16 + 1),
+           (5, 10 ** 9), (46341, 46341)]
+    while len(out) < n:
+        a = int(2.0 ** rng.uniform(1.0, 45.0))
+        b = int(2.0 ** rng.uniform(0.0, min(45.0, 61.0 - math.log2(a))))
+        a, b = max(1, a + rng.choice([-1, 0, 0, 1])), max(1, b + rng.choice([-1, 0, 0, 1]))
+        if a * b > 2 ** 61:
+            continue
+        out.append((a, b) if rng.random() < 0.5 else (b, a))
+    return out[:n]
+
+
+def gen_boundary_cells(rng, nrows, ncols, nrand=6):
+    """cells where the row / column split is decided: first, second, last and middle cell of the first, second, last,
+    middle and a few random rows, and their neighbours across the row ends; invalid numbers around 0 and ncells"""
+    n = nrows * ncols
+    rows = {0, 1, 2, nrows - 1, nrows - 2, nrows // 2} | {rng.randrange(nrows) for _ in range(nrand)}
+    s = {0, n - 1}
+    for k in rows:
+        for d in (-1, 0, 1, ncols - 2, ncols - 1, ncols // 2, rng.randrange(ncols)):
+            s.add(k * ncols + d)
+    cells = sorted(c for c in s if 0 <= c < n)
+    invalid = [-1, -2, n, n + 1, -n, 2 * n, n + ncols, -ncols, rng.randint(n, 4 * n + 5), -rng.randint(1, 4 * n + 5)]
     return cells, invalid
 
 
@@ -335,6 +420,50 @@ def build_grid(gd):
     return g
 
 
+class PyxGrid:
+    """the geometry entry points answered by the functions of the extension module called directly
+    (c_hydrodiy_gis.cell2rowcol / cell2coord / coord2cell / neighbours, the route Grid.* takes after _getsize()):
+    no data array is allocated, so nrows and ncols can be anything a long long holds"""
+
+    def __init__(self, nrows, ncols, xll, yll, csz):
+        self.nrows, self.ncols, self.xllcorner, self.yllcorner, self.cellsize = nrows, ncols, xll, yll, csz
+
+    def cell2rowcol(self, idxcells):
+        import numpy as np
+        import c_hydrodiy_gis
+        idx = np.ascontiguousarray(np.atleast_1d(idxcells), dtype=np.int64)
+        out = np.zeros((len(idx), 2), dtype=np.int64)
+        if c_hydrodiy_gis.cell2rowcol(self.nrows, self.ncols, idx, out) > 0:
+            raise ValueError("cell2rowcol")
+        return out
+
+    def cell2coord(self, idxcells):
+        import numpy as np
+        import c_hydrodiy_gis
+        idx = np.ascontiguousarray(np.atleast_1d(idxcells), dtype=np.int64)
+        out = np.zeros((len(idx), 2), dtype=np.float64)
+        if c_hydrodiy_gis.cell2coord(self.nrows, self.ncols, self.xllcorner, self.yllcorner, self.cellsize, idx, out) > 0:
+            raise ValueError("cell2coord")
+        return out
+
+    def coord2cell(self, xycoords):
+        import numpy as np
+        import c_hydrodiy_gis
+        xy = np.ascontiguousarray(np.atleast_2d(xycoords), dtype=np.float64)
+        out = np.zeros(len(xy), dtype=np.int64)
+        if c_hydrodiy_gis.coord2cell(self.nrows, self.ncols, self.xllcorner, self.yllcorner, self.cellsize, xy, out) > 0:
+            raise ValueError("coord2cell")
+        return out
+
+    def neighbours(self, idxcell):
+        import numpy as np
+        import c_hydrodiy_gis
+        out = np.zeros(9, dtype=np.int64)
+        if c_hydrodiy_gis.neighbours(self.nrows, self.ncols, np.int64(idxcell), out) > 0:
+            raise ValueError("neighbours")
+        return out
+
+
 # ---------------------------------------------------------------------------------------------
 class Checker:
     """every call into the real code goes through here: it issues the call on grid `g`, queues the same request
@@ -389,6 +518,8 @@ class Checker:
         self.st.add(f"c2c {self.gt} {C.ilist(req)}", pairs_tok(rows, C.f2h), case)
         if exact_model:
             self.st.addq(f"c2cQ {self.gq} {C.ilist(req)}", ("centres", ex, req, rows, self.gd))
+            # the same kernel on exact rationals with every arithmetic result rounded to 53 bits: must be the doubles
+            self.st.addq(f"c2cR {self.gq} {C.ilist(req)}", ("centresR", req, rows, self.gd))
         for c, (x, y) in zip(req, rows):
             valid = 0 <= c < n
             ctx.count(("c2c", self.gt, c, tag), valid, f"{self.hb}cell2coord/{tag}/" + ("valid" if valid else "invalid"))
@@ -402,6 +533,13 @@ class Checker:
                                 {**case, "cell": c, "cells": req[:400], "got": [x, y], "expected": [float(cx), float(cy)]})
                 else:
                     self.centre_ok[c] = (x, y)
+                    row, col = divmod(c, self.ncols)
+                    bx = CENTRE_BUDGET * (abs(ex.xll) + abs(ex.csz) * F(2 * col + 1, 2))
+                    by = CENTRE_BUDGET * (abs(ex.yll) + abs(ex.csz) * F(2 * (self.nrows - 1 - row) + 1, 2))
+                    # theorem cell2coordR_error evaluated on the code's doubles (u = 2^-53): evidence only — the bound belongs to
+                    # the operation order of the model; another (equally good) order may exceed it within the property's budget
+                    k = "standard_model/centre_bound_" + ("holds" if abs(F(x) - cx) <= bx and abs(F(y) - cy) <= by else "exceeded_within_property_budget")
+                    ctx.hist[k] = ctx.hist.get(k, 0) + 1
             elif not (x != x and y != y):
                 ctx.finding("invalid_cell/not_flagged/cell2coord", "an invalid cell number is given coordinates",
                             {**case, "cell": c, "cells": req[:400], "got": [x, y]})
@@ -427,6 +565,12 @@ class Checker:
         if exact_model:
             # the cast-first form imported by C05/C13/C16 must give the same cells as the kernel as written
             self.st.add(f"xy2c_cast {self.gt} {ptok}", C.ilist(got), {**case0, "points": plist, "form": "cast-first"})
+        if exact_model:
+            self.st.add(f"xy2cRid {self.gt} {ptok}", C.ilist(got), {**case0, "points": plist, "form": "rounded text, rnd = id"})
+            fin = [(p[0], p[1], c) for p, c in zip(req, got) if math.isfinite(p[0]) and math.isfinite(p[1])]
+            if fin and self.csz != 0:
+                self.st.addq(f"xy2cR {self.gq} {pairs_tok([(F(p[0]), F(p[1])) for p in fin], C.rat)}",
+                             ("cellsR", [p[2] for p in fin], self.gd, [(p[0], p[1]) for p in fin], ex))
         exact_pts, exact_got, quots, strips = [], [], [], []
         for (x, y, ptag), cell in zip(req, got):
             key = (C.f2h(x), C.f2h(y))
@@ -470,6 +614,12 @@ class Checker:
                         ctx.hist["approx/far_point_not_measured"] = ctx.hist.get("approx/far_point_not_measured", 0) + 1
                         continue
                     worst = max(worst, abs(F(q0) - qe))
+                    # theorem quotientsR_error on the doubles themselves: |q' - q| <= (2u + u^2)|q|, u = 2^-53
+                    if abs(F(q0) - qe) > QUOT_BUDGET * abs(qe):
+                        ctx.disagree("C07: the double quotient is further from the exact one than the standard model of floating "
+                                     "point arithmetic allows ((2u+u^2)|q|, u = 2^-53): hypothesis RelErr of the rounded theorems not met",
+                                     {**case0, "point": [x, y], "quotient": q0, "exact": float(qe)})
+                    ctx.hist["standard_model/quotient_bound_checked"] = ctx.hist.get("standard_model/quotient_bound_checked", 0) + 1
                 ctx.extra["max_quotient_error_in_cell_sizes"] = max(ctx.extra.get("max_quotient_error_in_cell_sizes", 0.0), float(worst))
                 if worst > MARGIN:
                     ctx.disagree("C07: the double evaluation of (x-xll)/csz is further than 1e-9 cell sizes from the exact quotient "
@@ -533,15 +683,19 @@ class Checker:
 
 
 def run_geometry(ctx, st, nrows, ncols, xll, yll, csz, cells, invalid, pts, origin="gen", history=None, rng=None,
-                 requests=()):
-    """one geometry: base requests for every entry point, other request shapes, axes, cross-check"""
+                 requests=(), route=None):
+    """one geometry: base requests for every entry point, other request shapes, axes, cross-check.
+    route: None = Grid object (constructed, or reached through `history`); "sweep" = Grid object, light (no request
+    shapes; axes only for moderate sizes); "pyx" = the extension module's functions called directly (huge shapes)"""
     import numpy as np
     from hydrodiy.gis.grid import Grid
     gd = {"nrows": nrows, "ncols": ncols, "xll": xll, "yll": yll, "csz": csz}
     if history:
         gd["history"] = history
-    g = build_grid(gd)
-    hb = "history/" if history else ""
+    if route == "pyx":
+        gd["route"] = "c_hydrodiy_gis functions called directly"
+    g = PyxGrid(nrows, ncols, xll, yll, csz) if route == "pyx" else build_grid(gd)
+    hb = "history/" if history else (route + "/") if route else ""
     ck = Checker(ctx, st, g, gd, hb)
     n = nrows * ncols
     allcells = list(cells) + list(invalid)
@@ -624,7 +778,8 @@ def run_geometry(ctx, st, nrows, ncols, xll, yll, csz, cells, invalid, pts, orig
                                 {"geom": gd, "fn": fn, "cells": [str(b) for b in big], "got": np.asarray(out).tolist()})
 
     # ---- axes
-    ck.axes()
+    if route is None or (route == "sweep" and nrows + ncols <= 3000):
+        ck.axes()
 
     # ---- a grid reached through a history must answer like a freshly constructed grid of the same geometry
     if history:
@@ -715,17 +870,62 @@ def gen_set(rng, geo):
     return [["xll", gen_origin(rng, csz)], ["yll", gen_origin(rng, csz)]]
 
 
+def gen_nbseq(rng, geo, aux):
+    """a run of scalar calls (neighbours keeps nothing between calls — each answer must be that of a first call):
+    sweeps over consecutive cells across row ends, restarts, rejected numbers (-1, ncells, ...) in between, and
+    calls on a second grid that shares the number of columns / rows / cells with the first"""
+    n = geo["nrows"] * geo["ncols"]
+    na = aux["nrows"] * aux["ncols"]
+    seq = []
+    c = rng.choice([0, rng.randrange(n), max(0, geo["ncols"] - 2), max(0, n - 3)])
+    for _ in range(rng.randint(3, 12)):
+        r = rng.random()
+        if r < 0.45:
+            seq.append(["main", c])
+            c += 1
+        elif r < 0.65:
+            bad = rng.choice([-1, -1, n, n + 1, -2, -n])
+            seq.append(["main", bad])
+            c = rng.choice([c, bad + 1, 0, rng.randrange(n)])
+        elif r < 0.85:
+            ca = rng.choice([c, c + 1, c - 1, rng.randrange(na), -1, na])
+            seq.append(["aux", ca])
+            c = rng.choice([c, ca + 1, c + 1])
+        else:
+            c = rng.randrange(n)
+    return {"op": "nbseq", "calls": seq}
+
+
 def gen_ops(rng):
     nrows, ncols = rng.choice([(1, 1), (1, 2), (2, 1), (2, 2), (2, 3), (3, 2), (1, 5), (4, 1), (3, 4), (rng.randint(1, 6), rng.randint(1, 6))])
     csz = gen_csz(rng)
     geo = {"nrows": nrows, "ncols": ncols, "xll": gen_origin(rng, csz), "yll": gen_origin(rng, csz), "csz": csz}
     init = dict(geo)
+    # a second grid, alive during the whole history: same ncols / same nrows / transposed / same ncells / unrelated
+    r = rng.random()
+    aux = dict(geo)
+    if r < 0.35:
+        aux["nrows"] = rng.choice([nrows + 1, max(1, nrows - 1), rng.randint(1, 6)])
+    elif r < 0.5:
+        aux["ncols"] = rng.choice([ncols + 1, max(1, ncols - 1), rng.randint(1, 6)])
+    elif r < 0.65:
+        aux["nrows"], aux["ncols"] = ncols, nrows
+    else:
+        aux.update(nrows=rng.randint(1, 6), ncols=rng.randint(1, 6), xll=gen_origin(rng, csz))
     first = gen_call(rng, geo)
     ops = [first]
     last = first
     for _ in range(rng.randint(1, 3)):
-        kind = rng.choice(["edit_output", "edit_input", "set", "set", "clone", "other_args"])
-        if kind == "edit_output":
+        kind = rng.choice(["edit_output", "edit_input", "set", "set", "clone", "other_args", "nbseq", "aux_call"])
+        if kind == "nbseq":
+            ops.append(gen_nbseq(rng, geo, aux))
+            ops.append({"op": "recall"} if rng.random() < 0.5 else gen_call(rng, geo))
+        elif kind == "aux_call":
+            # the same kind of request, same length, on the second grid, then the first grid again
+            L = len(last.get("cells", last.get("pts", [0])))
+            ops.append({"op": "aux_call", "call": gen_call(rng, aux, fn=last["op"], length=L if last["op"] in ("rowcol", "c2c", "xy") else None)})
+            ops.append({"op": "recall"} if rng.random() < 0.7 else gen_call(rng, geo))
+        elif kind == "edit_output":
             ops.append({"op": "edit_output", "fill": rng.choice([-7, 0, 12345])})
             ops.append({"op": "recall"} if rng.random() < 0.7 else gen_call(rng, geo))
         elif kind == "edit_input" and last["op"] in ("rowcol", "c2c", "xy") and last["as"] == "array":
@@ -745,7 +945,7 @@ def gen_ops(rng):
             ops.append(gen_call(rng, geo, fn=last["op"], length=L if last["op"] in ("rowcol", "c2c", "xy") else None))
         calls = [o for o in ops if o["op"] in ("rowcol", "c2c", "xy", "nb", "axes")]
         last = calls[-1]
-    return {"initial": init, "ops": ops}
+    return {"initial": init, "aux": aux, "ops": ops}
 
 
 def run_history(ctx, st, hist):
@@ -757,11 +957,45 @@ def run_history(ctx, st, hist):
     g = Grid("c07h", ncols=geo["ncols"], nrows=geo["nrows"], cellsize=geo["csz"], xllcorner=geo["xll"], yllcorner=geo["yll"])
     held = []      # [array as returned, snapshot, step] : earlier answers must not change later
     last = None    # (op name, argument object, "as")
+    ageo = hist.get("aux")
+    ga = Grid("c07aux", ncols=ageo["ncols"], nrows=ageo["nrows"], cellsize=ageo["csz"], xllcorner=ageo["xll"], yllcorner=ageo["yll"]) if ageo else None
 
-    def checker(step):
+    def checker(step, aux=False):
+        if aux:
+            return Checker(ctx, st, ga, dict(ageo), "calls/aux/", extra={"history_ops": hist, "step": step, "grid": "aux"})
         return Checker(ctx, st, g, dict(geo), "calls/", extra={"history_ops": hist, "step": step})
 
+    def make_arg(o):
+        if o["op"] in ("rowcol", "c2c"):
+            return np.array(o["cells"], dtype=np.int64) if o["as"] == "array" else list(o["cells"])
+        if o["op"] == "xy":
+            return np.array(o["pts"], dtype=np.float64).reshape(-1, 2) if o["as"] == "array" else [list(p) for p in o["pts"]]
+        return o["cell"] if o["op"] == "nb" else None
+
+    # the same history for the model's state machine (`run` of Model/C07State.lean): one token per operation on the
+    # main object, with the argument content of the moment; the answers of the code in the same order
+    MODEL_OP = {"rowcol": "rc", "c2c": "cc", "xy2c": "xy", "nb": "nb", "axes": "ax"}
+    toks, answers, complete = [], [], [True]
+    budget = [float(Exact(geo["nrows"], geo["ncols"], geo["xll"], geo["yll"], geo["csz"]).budget())]
+
+    def record(n0):
+        """the model request the Checker queued for this call -> operation token and the code's answer"""
+        for i in range(n0, len(st.reqs)):
+            parts = st.reqs[i].split(" ")
+            if parts[0] in MODEL_OP:
+                toks.append(MODEL_OP[parts[0]] + ("" if parts[0] == "axes" else ":" + (parts[-1][1:-1] if parts[0] == "nb" else parts[-1])))
+                answers.append(st.impls[i])
+                return
+        complete[0] = False    # no answer of the expected shape (already reported as a finding)
+
     def call(ck, op, arg, how):
+        n0 = len(st.reqs)
+        outs = call_(ck, op, arg, how)
+        if ck.g is not ga:
+            record(n0)
+        return outs
+
+    def call_(ck, op, arg, how):
         outs = []
         if op in ("rowcol", "c2c"):
             req = [int(v) for v in (arg.tolist() if isinstance(arg, np.ndarray) else arg)]
@@ -784,19 +1018,22 @@ def run_history(ctx, st, hist):
         op = o["op"]
         ctx.count(("hist", id(hist), step), False, "calls/op/" + op)
         if op in ("rowcol", "c2c", "xy", "nb", "axes"):
-            if op in ("rowcol", "c2c"):
-                arg = np.array(o["cells"], dtype=np.int64) if o["as"] == "array" else list(o["cells"])
-            elif op == "xy":
-                arg = np.array(o["pts"], dtype=np.float64).reshape(-1, 2) if o["as"] == "array" else [list(p) for p in o["pts"]]
-            elif op == "nb":
-                arg = o["cell"]
-            else:
-                arg = None
+            arg = make_arg(o)
             last = (op, arg, o.get("as", "list"))
             for arr in call(checker(step), op, arg, last[2]):
                 held.append([arr, np.array(arr, copy=True), step])
         elif op == "recall" and last is not None:
             for arr in call(checker(step), last[0], last[1], last[2]):
+                held.append([arr, np.array(arr, copy=True), step])
+        elif op == "nbseq":
+            for which, c in o["calls"]:
+                if which == "aux" and ga is None:
+                    continue
+                for arr in call(checker(step, aux=(which == "aux")), "nb", c, "list"):
+                    held.append([arr, np.array(arr, copy=True), step])
+        elif op == "aux_call" and ga is not None:
+            oc = o["call"]
+            for arr in call(checker(step, aux=True), oc["op"], make_arg(oc), oc.get("as", "list")):
                 held.append([arr, np.array(arr, copy=True), step])
         elif op == "edit_output" and held:
             arr = held.pop()[0]
@@ -811,8 +1048,14 @@ def run_history(ctx, st, hist):
                 val = np.int64(val) if o["attr"] in ("nrows", "ncols") else np.float64(val)
             setattr(g, ATTR[o["attr"]], val)
             geo[o["attr"]] = o["value"]
+            budget.append(float(Exact(geo["nrows"], geo["ncols"], geo["xll"], geo["yll"], geo["csz"]).budget()))
+            toks.append({"nrows": "sr", "ncols": "sc", "xll": "sx", "yll": "sy", "csz": "sz"}[o["attr"]] + ":"
+                        + (str(int(o["value"])) if o["attr"] in ("nrows", "ncols") else C.f2h(float(o["value"]))))
+            answers.append("-")
         elif op == "clone":
             g = g.clone() if o["how"] == "clone" else copy.deepcopy(g) if o["how"] == "deepcopy" else pickle.loads(pickle.dumps(g))
+            toks.append("cl")
+            answers.append("-")
         for arr, snap, at in held:
             if not np.array_equal(arr, snap, equal_nan=True):
                 ctx.finding("history/answer_changed_later", "an array returned by an earlier call changed during later calls",
@@ -820,12 +1063,255 @@ def run_history(ctx, st, hist):
                              "first": snap.tolist()[:20], "now": arr.tolist()[:20]})
                 held[:] = [h for h in held if h[0] is not arr]
                 break
+    if complete[0] and toks:
+        i0 = hist["initial"]
+        ctx.count(("histmodel", id(hist)), True, "calls/whole_history_vs_state_machine")
+        st.add("hist " + geom_tok(i0["nrows"], i0["ncols"], i0["xll"], i0["yll"], i0["csz"]) + " " + " ".join(toks),
+               "|".join(answers + [f"G {int(g.nrows)} {int(g.ncols)} {C.f2h(float(g.xllcorner))} {C.f2h(float(g.yllcorner))} {C.f2h(float(g.cellsize))}"]),
+               {"fn": "history", "history_ops": hist, "budget": max(budget)})
+
+
+def run_round53(ctx, st):
+    """round53 of the model (nearest, ties to even, 53 bits, on exact rationals) against correctly rounded doubles:
+    float(Fraction) is a correctly rounded int / int division; exponents -900..900 (no underflow / overflow)"""
+    rng = ctx.rng
+    for _ in range(ctx.scale(40, 400)):
+        xs = []
+        for _ in range(25):
+            r = rng.random()
+            if r < 0.3:       # exact ties and their neighbours: (2m+1) * 2^k / 2 with m of 53 bits
+                m = rng.randrange(2 ** 52, 2 ** 53)
+                q = F(2 * m + 1 + rng.choice([0, 0, 0, -1, 1]) * F(1, rng.choice([1, 2 ** 10, 2 ** 60, 3])), 2)
+            elif r < 0.6:
+                q = F(rng.randrange(1, 2 ** rng.randint(1, 120)), rng.randrange(1, 2 ** rng.randint(1, 120)))
+            elif r < 0.8:
+                q = F(rng.uniform(-1e3, 1e3)) * F(rng.uniform(-1e3, 1e3))      # exact product of two doubles
+            else:
+                q = F(rng.uniform(-1e3, 1e3)) / F(rng.choice([0.05, 1.0 / 3.0, 0.1, 250.0, 1e-4, rng.uniform(1e-4, 1e4)]))
+            q *= F(2) ** rng.randint(-900, 900) * rng.choice([-1, 1])
+            if q != 0:
+                xs.append((q, float(q)))
+        xs.append((F(0), 0.0))
+        st.addq("round53 " + "[" + ",".join(C.rat(q) for q, _ in xs) + "]", ("round53", xs))
+
+
+def run_constructor(ctx, st):
+    """Grid.__init__: the defaults (nrows=None -> ncols, cellsize=1., xllcorner=0, yllcorner=0) and its guard (a negative
+    dimension is refused by np.zeros with ValueError), against mkGrid of the model; an accepted grid is then used"""
+    from hydrodiy.gis.grid import Grid
+    rng = ctx.rng
+    for it in range(ctx.scale(150, 1500)):
+        ncols = [3, 0, -1, 1, 7][it] if it < 5 else rng.choice([rng.randint(1, 12), rng.randint(1, 12), 0, -rng.randint(1, 5)])
+        nrows = None if it < 3 or rng.random() < 0.4 else rng.choice([rng.randint(1, 12), rng.randint(1, 12), 0, -rng.randint(1, 5)])
+        csz = None if it < 3 or rng.random() < 0.4 else gen_csz(rng)
+        xll = None if it < 3 or rng.random() < 0.4 else gen_origin(rng, csz or 1.0)
+        yll = None if it < 3 or rng.random() < 0.4 else gen_origin(rng, csz or 1.0)
+        kw = {k: v for k, v in (("nrows", nrows), ("cellsize", csz), ("xllcorner", xll), ("yllcorner", yll)) if v is not None}
+        case = {"fn": "Grid.__init__", "ncols": ncols, "kwargs": kw}
+        try:
+            g = Grid("c07k", ncols, **kw)
+            impl = f"ok {int(g.nrows)} {int(g.ncols)} {C.f2h(float(g.xllcorner))} {C.f2h(float(g.yllcorner))} {C.f2h(float(g.cellsize))}"
+        except ValueError:
+            g, impl = None, "err:ValueError"
+        enr, enc = (ncols if nrows is None else nrows), ncols
+        ok = enr >= 0 and enc >= 0
+        ctx.count(("mk", it), ok and enr * enc > 0, "constructor/" + ("accepted" if ok else "negative_dimension")
+                  + "/defaults=" + "".join(k[0] for k in ("nrows", "cellsize", "xllcorner", "yllcorner") if k not in kw))
+        req = "mk " + " ".join([str(ncols), "-" if nrows is None else str(nrows)] + ["-" if v is None else C.f2h(v) for v in (csz, xll, yll)])
+        if not (enr >= 1 and enc >= 1):
+            # zero / negative dimensions are outside the property's quantifier (nrows, ncols >= 1)
+            st.addi(req, impl, "constructor/" + ("negative_dimension" if not ok else "zero_dimension"), case)
+            continue
+        st.add(req, impl, case)
+        if g is None:
+            ctx.finding("constructor/refused", "the constructor refuses a grid with nrows, ncols >= 1", case)
+            continue
+        # oracle: what the signature says (independent of the model), then the grid answers like its geometry
+        want = (enr, enc, 0.0 if xll is None else xll, 0.0 if yll is None else yll, 1.0 if csz is None else csz)
+        if (int(g.nrows), int(g.ncols), float(g.xllcorner), float(g.yllcorner), float(g.cellsize)) != want:
+            ctx.finding("constructor/geometry", "the grid does not have the geometry it was constructed with (defaults: square, unit cells, origin 0)",
+                        {**case, "got": impl, "expected": list(want)})
+            continue
+        gd = {"nrows": enr, "ncols": enc, "xll": want[2], "yll": want[3], "csz": want[4], "constructed_with": {"ncols": ncols, **kw}}
+        ck = Checker(ctx, st, g, gd, "constructor/")
+        n = enr * enc
+        cells = sorted({0, n - 1, rng.randrange(n), enc - 1, n - enc})
+        ck.rowcol(cells + [-1, n])
+        ck.c2c(cells + [-1, n], exact_model=True)
+        ck.points(gen_points(rng, enr, enc, want[2], want[3], want[4], cells, 4, 8), exact_model=True)
+        r, _ = ck.nb(cells[0])
+        ck.nb_model([cells[0]], [r])
+
+
+def run_shapes(ctx, st):
+    """request shapes: what the wrappers accept (scalar or 1-d for cells; a pair or [n, 2] for points) and refuse,
+    against cellsRequestLen / pointsRequestLen of the model. A request of an accepted shape is inside the property's
+    quantifier: it must be answered, element-wise (model + oracle through the Checker, and the shape-level model
+    request strictly). What happens to a request of any other shape is not the property's business: compared with the
+    model (ValueError) for the evidence only"""
+    import numpy as np
+    from hydrodiy.gis.grid import Grid
+    rng = ctx.rng
+    for it in range(ctx.scale(60, 600)):
+        nrows, ncols = rng.randint(1, 6), rng.randint(1, 6)
+        csz = gen_csz(rng)
+        xll, yll = gen_origin(rng, csz), gen_origin(rng, csz)
+        g = Grid("c07s", ncols=ncols, nrows=nrows, cellsize=csz, xllcorner=xll, yllcorner=yll)
+        gt = geom_tok(nrows, ncols, xll, yll, csz)
+        gd = {"nrows": nrows, "ncols": ncols, "xll": xll, "yll": yll, "csz": csz}
+        ck = Checker(ctx, st, g, gd, "shapes/")
+        n = nrows * ncols
+        pool = gen_points(rng, nrows, ncols, xll, yll, csz, list(range(n)), 6, 6)
+        for shape in [(), (1,), (2,), (3,), (0,), (1, 2), (2, 2), (n, 2), (0, 2), (2, 1), (2, 3), (1, 1), (2, 0), (1, 2, 2), (2, 2, 2), (1, 1, 2),
+                      (rng.randint(1, 5), rng.randint(0, 4))]:
+            size = int(np.prod(shape)) if shape else 1
+            # ---- points
+            chosen = [rng.choice(pool) for _ in range(size)]
+            flat = [v for p_ in chosen for v in p_[:2]][:size]
+            arg = np.array(flat, dtype=np.float64).reshape(shape)
+            good = (len(shape) in (1, 2)) and shape[-1] == 2
+            case = {"fn": "coord2cell", "geom": gd, "shape": list(shape), "flat": flat}
+            req = f"shape xy {gt} {C.ilist(list(shape))} {C.flist(flat)}"
+            if good:
+                if size:
+                    res = ck.points([(flat[2 * i], flat[2 * i + 1], "shape") for i in range(size // 2)], "shape=" + str(list(shape)), arg=arg)
+                else:
+                    res = g.coord2cell(arg)
+                st.add(req, C.ilist(res.tolist()), case)
+            else:
+                try:
+                    impl, kind = C.ilist(np.asarray(g.coord2cell(arg)).ravel().tolist()), "answered"
+                except Exception as e:  # noqa
+                    impl, kind = "err:ValueError", type(e).__name__
+                ctx.count(("shape", it, "xy", shape), False, "shapes/coord2cell/other_shape/" + kind)
+                st.addi(req, impl, "request_shape/coord2cell", case)
+            # ---- cells
+            cells = [rng.choice([rng.randrange(n), rng.randrange(n), -1, n]) for _ in range(size)]
+            carg = np.array(cells, dtype=np.int64).reshape(shape)
+            good = len(shape) <= 1
+            for name, fmt in (("rc", str), ("cc", C.f2h)):
+                fn = g.cell2rowcol if name == "rc" else g.cell2coord
+                case = {"fn": "cell2rowcol" if name == "rc" else "cell2coord", "geom": gd, "shape": list(shape), "cells": cells}
+                req = f"shape {name} {gt} {C.ilist(list(shape))} {C.ilist(cells)}"
+                if good:
+                    res = (ck.rowcol if name == "rc" else ck.c2c)(cells, "shape=" + str(list(shape)), arg=carg) if size else fn(carg)
+                    st.add(req, pairs_tok(res.tolist(), fmt), case)
+                else:
+                    try:
+                        impl, kind = pairs_tok(np.asarray(fn(carg)).reshape(-1, 2).tolist(), fmt), "answered"
+                    except Exception as e:  # noqa
+                        impl, kind = "err:ValueError", type(e).__name__
+                    ctx.count(("shape", it, name, shape), False, f"shapes/{name}/other_shape/" + kind)
+                    st.addi(req, impl, "request_shape/" + name, case)
+
+
+def excluded_answers(spec):
+    """the four calls on a grid with the excluded geometry `spec` -> [(model request, answer of the code)]"""
+    from hydrodiy.gis.grid import Grid
+    nrows, ncols, xll, yll, csz = spec["nrows"], spec["ncols"], spec["xll"], spec["yll"], spec["csz"]
+    if spec["route"] == "attributes":
+        g = Grid("c07x", ncols=2, nrows=2)
+        g.nrows, g.ncols, g.cellsize, g.xllcorner, g.yllcorner = nrows, ncols, csz, xll, yll
+    else:
+        g = PyxGrid(nrows, ncols, xll, yll, csz)
+    gt = geom_tok(nrows, ncols, xll, yll, csz)
+    cells = spec["cells"]
+
+    def ans(f):
+        try:
+            return f()
+        except Exception as e:  # noqa   (outside the quantifier: refusing is as good an answer as any)
+            return "exception:" + type(e).__name__
+    import numpy as np
+    out = [(f"rowcol {nrows} {ncols} {C.ilist(cells)}", ans(lambda: pairs_tok(g.cell2rowcol(cells).tolist(), str)))]
+    try:
+        xy = g.cell2coord(cells)
+    except Exception:  # noqa
+        xy = np.zeros((0, 2))
+    out.append((f"c2c {gt} {C.ilist(cells)}", ans(lambda: pairs_tok(g.cell2coord(cells).tolist(), C.f2h))))
+    reps = []
+    for c in cells:
+        try:
+            reps.append("ok:" + C.ilist([int(v) for v in g.neighbours(c)]))
+        except ValueError:
+            reps.append("err:badCell")
+        except Exception as e:  # noqa
+            reps.append("exception:" + type(e).__name__)
+    out.append((f"nb {nrows} {ncols} {C.ilist(cells)}", ";".join(reps)))
+    pts = spec["pts"] + [[float(v[0]), float(v[1])] for v in xy.tolist() if v[0] == v[0]][:4]   # + centres the code itself returned
+    out.append((f"xy2c {gt} {pairs_tok(pts, C.f2h)}", ans(lambda: C.ilist(g.coord2cell(pts).tolist()))))
+    return out
+
+
+def excluded_child():
+    """child process of run_excluded: grids WITHOUT cells (a zero dimension), where a change of the guards can make the
+    kernel divide by ncols = 0 (SIGFPE): one JSON line per geometry, flushed, so that a crash loses only the rest"""
+    import sys
+    for line in sys.stdin:
+        print(json.dumps(excluded_answers(json.loads(line))), flush=True)
+
+
+def run_excluded(ctx, st):
+    """the points the theorems' hypotheses exclude (cell size <= 0, a zero or negative number of rows / columns —
+    reachable by re-assigning attributes or through the extension module, not through the constructor): outside the
+    property's quantifier, so no oracle and no alarm: what the code does there is compared with the model's text
+    (C truncated / and %, IEEE division by zero) for the evidence (counts of agreements / differences)"""
+    import os
+    import subprocess
+    import sys
+    rng = ctx.rng
+    zero = []
+    for it in range(ctx.scale(80, 800)):
+        kind = ["csz<0", "csz=0", "neg_rows_and_cols", "neg_cols", "zero_cols", "neg_rows", "zero_rows"][it % 7]
+        nrows, ncols = rng.randint(1, 6), rng.randint(1, 6)
+        csz = gen_csz(rng)
+        if kind == "csz<0":
+            csz = -csz
+        elif kind == "csz=0":
+            csz = 0.0
+        elif kind == "neg_rows_and_cols":
+            nrows, ncols = -nrows, -ncols
+        elif kind == "neg_cols":
+            ncols = -ncols
+        elif kind == "zero_cols":
+            ncols = 0
+        elif kind == "zero_rows":
+            nrows = 0
+        else:
+            nrows = -nrows
+        w = abs(csz) or 1.0
+        xll, yll = gen_origin(rng, w), gen_origin(rng, w)
+        n = abs(nrows * ncols)
+        spec = {"nrows": nrows, "ncols": ncols, "xll": xll, "yll": yll, "csz": csz, "excluded": kind,
+                "route": rng.choice(["attributes", "pyx"]),
+                "cells": sorted({0, 1, n - 1, n, -1, -n, rng.randint(-n - 2, n + 2), rng.randint(0, max(0, n - 1))}),
+                "pts": [[xll + w * rng.uniform(-2.0, abs(ncols) + 2.0) * rng.choice([-1, 1]), yll + w * rng.uniform(-2.0, abs(nrows) + 2.0) * rng.choice([-1, 1])]
+                        for _ in range(8)]}
+        ctx.count(("excl", it), False, "excluded/" + kind + "/" + spec["route"])
+        if nrows == 0 or ncols == 0:
+            zero.append(spec)
+            continue
+        for req, impl in excluded_answers(spec):
+            st.addi(req, impl, "excluded/" + kind, {"geom": spec})
+    # grids without cells: in a child process
+    env = dict(os.environ, PYTHONPATH=os.pathsep.join([str(C.ROOT)] + [p_ for p_ in sys.path if p_]))
+    child = subprocess.run([sys.executable, "-c", "from harness import c07; c07.excluded_child()"], input="".join(json.dumps(z) + "\n" for z in zero),
+                           stdout=subprocess.PIPE, stderr=subprocess.PIPE, text=True, env=env, cwd=str(C.ROOT), timeout=600)
+    lines = [l for l in child.stdout.splitlines() if l.startswith("[")]
+    for spec, line in zip(zero, lines):
+        for req, impl in json.loads(line):
+            st.addi(req, impl, "excluded/" + spec["excluded"], {"geom": spec})
+    if child.returncode != 0 or len(lines) != len(zero):
+        k = f"outside_quantifier/excluded/zero_dimension/child_process_ended_with_{child.returncode}_after_{len(lines)}_of_{len(zero)}"
+        ctx.hist[k] = ctx.hist.get(k, 0) + 1
+        ctx.extra["excluded_child_stderr"] = child.stderr[-500:]
 
 
 class Stream:
     def __init__(self):
         self.reqs, self.impls, self.cases = [], [], []
         self.qreqs, self.qinfo = [], []
+        self.ireqs, self.iinfo = [], []
 
     def add(self, req, impl, case):
         self.reqs.append(req)
@@ -835,6 +1321,12 @@ class Stream:
     def addq(self, req, info):
         self.qreqs.append(req)
         self.qinfo.append(info)
+
+    def addi(self, req, impl, tag, case):
+        """informational comparison (requests OUTSIDE the property's quantifier: the property says nothing there, so a
+        difference between code and model is recorded in the evidence and never an alarm)"""
+        self.ireqs.append(req)
+        self.iinfo.append((impl, tag, case))
 
 
 def parse_rat(tok):
@@ -865,7 +1357,7 @@ def body(ctx):
         n = gd["nrows"] * gd["ncols"]
         run_geometry(ctx, st, gd["nrows"], gd["ncols"], float(gd["xll"]), float(gd["yll"]), float(gd["csz"]),
                      [c for c in cells if 0 <= c < n], [c for c in cells if not 0 <= c < n], pts, origin="corpus",
-                     history=gd.get("history"),
+                     history=gd.get("history"), route="pyx" if gd.get("route") else None,
                      requests=[(str(r.get("tag", "recorded")), [int(c) for c in r["cells"]]) for r in case.get("requests", [])]
                      + ([(str(case["request"]), [int(c) for c in case["cells"]])]
                         if case.get("request", "base") != "base" and "cells" in case and "cell" in case else []))
@@ -877,9 +1369,21 @@ def body(ctx):
     kern.getnxy.restype = ctypes.c_longlong
     kern.getnxy.argtypes = [ctypes.c_longlong, ctypes.c_longlong, ctypes.POINTER(ctypes.c_longlong)]
     buf = (ctypes.c_longlong * 2)()
-    for it in range(ctx.scale(120, 1200)):
-        nc = rng.choice([1, 2, 3, 7, -1, -3]) if it < 12 else rng.choice([-1, 1]) * rng.randint(1, 40)
-        cs = [0, 1, -1, nc, -nc, nc - 1, nc + 1] + [rng.randint(-2000, 2000) for _ in range(20)]
+    for it in range(ctx.scale(1500, 9000)):
+        r = rng.random()
+        if it < 12:
+            nc = [1, 2, 3, 7, -1, -3, 49, 107, 2 ** 31, 2 ** 32 + 1, 10 ** 12, -49][it]
+        elif r < 0.3:
+            nc = rng.choice([-1, 1]) * rng.randint(1, 40)
+        elif r < 0.7:
+            nc = rng.choice([-1, 1, 1, 1]) * rng.randint(41, 5000)
+        else:
+            nc = rng.choice([-1, 1, 1, 1]) * int(2.0 ** rng.uniform(5.0, 45.0))
+        # cells around the row ends k*ncols for small, random and huge k (up to 2^61), and a few anywhere
+        kmax = 2 ** 61 // abs(nc)
+        ks = [1, 2, 3, rng.randint(1, 50), rng.randint(1, 50), rng.randint(0, min(kmax, 10 ** 6)), rng.randint(0, kmax), kmax]
+        cs = [0, 1, -1, nc, -nc, nc - 1, nc + 1] + [s_ * k * abs(nc) + d for k in ks for d in (-1, 0, 1) for s_ in ((1,) if d else (1, -1))] \
+            + [rng.randint(-2000, 2000) for _ in range(6)] + [rng.randint(0, 2 ** 61)]
         out = []
         for c in cs:
             kern.getnxy(nc, c, buf)
@@ -905,6 +1409,34 @@ def body(ctx):
                         {"geom": {"nrows": nrows, "ncols": ncols, "xll": xll, "yll": yll, "csz": csz, "history": history},
                          "error": repr(e)[:300]})
 
+    # ---- wide / tall / large shapes: the cells where the row / column split is decided (row ends), light
+    def guarded(nrows, ncols, xll, yll, csz, *a, **kw):
+        try:
+            run_geometry(ctx, st, nrows, ncols, xll, yll, csz, *a, **kw)
+        except (ValueError, TypeError, AssertionError, IndexError, OverflowError) as e:
+            ctx.finding("api/exception", "a geometry function raised on a request inside the property's domain",
+                        {"geom": {"nrows": nrows, "ncols": ncols, "xll": xll, "yll": yll, "csz": csz, **({"route": kw["route"]} if kw.get("route") == "pyx" else {})},
+                         "error": repr(e)[:300]})
+    for (nrows, ncols) in gen_sweep_shapes(rng, ctx.scale(700, 4000)):
+        csz = gen_csz(rng)
+        xll, yll = gen_origin(rng, csz), gen_origin(rng, csz)
+        cells, invalid = gen_boundary_cells(rng, nrows, ncols)
+        pts = gen_points(rng, nrows, ncols, xll, yll, csz, cells, 10, 8)
+        guarded(nrows, ncols, xll, yll, csz, cells, invalid, pts, origin="sweep", route="sweep")
+    # ---- shapes beyond what can be allocated, through the extension module's functions (the route Grid.* takes);
+    #      points only where the double quotient still resolves 1e-9 cell sizes (|quotient| < 2^20)
+    for (nrows, ncols) in gen_huge_shapes(rng, ctx.scale(250, 1500)):
+        csz = gen_csz(rng)
+        xll, yll = gen_origin(rng, csz), gen_origin(rng, csz)
+        cells, invalid = gen_boundary_cells(rng, nrows, ncols, nrand=3)
+        pts = gen_points(rng, nrows, ncols, xll, yll, csz, cells, 10, 8) if max(nrows, ncols) < 2 ** 20 - 10 ** 4 else []
+        guarded(nrows, ncols, xll, yll, csz, cells, invalid, pts, origin="huge", route="pyx")
+
+    run_round53(ctx, st)
+    run_constructor(ctx, st)
+    run_shapes(ctx, st)
+    run_excluded(ctx, st)
+
     # ---- call histories on one grid object
     for _ in range(ctx.scale(500, 5000)):
         hist = gen_ops(rng)
@@ -917,12 +1449,13 @@ def body(ctx):
     # ---- correspondence: Float instance; integers exact, coordinates bit-equal or within the coordinate budget
     import re
 
-    def close_floats(a, b, geom):
+    def close_floats(a, b, geom, bud=None):
         """same text up to the float tokens, and every float within the coordinate budget of the geometry"""
         ta, tb = re.findall(r"[0-9a-f]{16}|nan", a), re.findall(r"[0-9a-f]{16}|nan", b)
         if len(ta) != len(tb) or re.sub(r"[0-9a-f]{16}|nan", "#", a) != re.sub(r"[0-9a-f]{16}|nan", "#", b):
             return False
-        bud = float(Exact(geom["nrows"], geom["ncols"], geom["xll"], geom["yll"], geom["csz"]).budget())
+        if bud is None:
+            bud = float(Exact(geom["nrows"], geom["ncols"], geom["xll"], geom["yll"], geom["csz"]).budget())
         for u, v in zip(ta, tb):
             if u == v:
                 continue
@@ -934,7 +1467,8 @@ def body(ctx):
         return True
     replies = ctx.lean.ask(st.reqs)
     for req, impl, rep, case in zip(st.reqs, st.impls, replies, st.cases):
-        if impl != rep and case.get("fn") in ("cell2coord", "axes") and close_floats(impl, rep, case["geom"]):
+        if impl != rep and ((case.get("fn") in ("cell2coord", "axes") and close_floats(impl, rep, case["geom"]))
+                            or (case.get("fn") == "history" and close_floats(impl, rep, None, case["budget"]))):
             ctx.hist["correspondence/within_budget_not_bit_equal"] = ctx.hist.get("correspondence/within_budget_not_bit_equal", 0) + 1
             rep = impl
         if impl != rep and case.get("fn") == "coord2cell":
@@ -955,6 +1489,45 @@ def body(ctx):
             for a, b in zip(info[1], [int(t) for t in C.parse_list(rep)]):
                 k = "pinned_trunc_model/strip_point/" + ("model_gives_cell_code_gives_-1" if (b != -1 and a == -1) else "other")
                 ctx.hist[k] = ctx.hist.get(k, 0) + 1
+            continue
+        if info[0] == "cellsR":
+            _, got, gd, pts, ex = info
+            model = [int(t) for t in C.parse_list(rep)]
+            for p, a, b in zip(pts, got, model):
+                k = "round53_model/points/" + ("same_cell" if a == b else "edge_zone_point_differs")
+                ctx.hist[k] = ctx.hist.get(k, 0) + 1
+                # within 1e-9 cell sizes of an edge another evaluation order may legitimately fall on the other side
+                if a != b and ex.classify(p[0], p[1])[0] != "edgezone":
+                    ctx.disagree("C07: code differs from the kernel text evaluated on exact rationals with every arithmetic result "
+                                 "rounded to 53 bits (round53): the doubles do not do what the rounded model says",
+                                 {"geom": gd, "fn": "coord2cell", "point": [p[0], p[1]], "impl": a, "model": b})
+            continue
+        if info[0] == "centresR":
+            _, cells, xy, gd = info
+            body_ = rep.strip()[1:-1]
+            rows = [r.split(",") for r in body_.split(";")] if body_ else []
+            bud = Exact(gd["nrows"], gd["ncols"], gd["xll"], gd["yll"], gd["csz"]).budget()
+            for c, (x, y), (mx, my) in zip(cells, xy, rows):
+                mx, my = parse_rat(mx), parse_rat(my)
+                if mx is None:
+                    ok = same = x != x and y != y
+                else:
+                    fin = math.isfinite(x) and math.isfinite(y)
+                    same = fin and F(x) == mx and F(y) == my
+                    ok = fin and abs(F(x) - mx) <= bud and abs(F(y) - my) <= bud
+                k = "round53_model/centres/" + ("equal" if same else "within_budget_not_equal")
+                ctx.hist[k] = ctx.hist.get(k, 0) + 1
+                if not ok:
+                    ctx.disagree("C07: cell2coord differs from the kernel text evaluated on exact rationals with round53",
+                                 {"geom": gd, "fn": "cell2coord", "cell": c, "impl": [x, y], "model": [str(mx), str(my)]})
+            continue
+        if info[0] == "round53":
+            want = info[1]
+            got = [F(t) for t in C.parse_list(rep)]
+            for w, g_ in zip(want, got):
+                ctx.count(("round53", str(w[0])), True, "round53/vs_correctly_rounded_division")
+                if F(w[1]) != g_:
+                    ctx.disagree("C07: round53 is not the correctly rounded (nearest, ties to even) double", {"exact": str(w[0]), "double": w[1], "model": str(g_)})
             continue
         if info[0] == "cells":
             _, got, gd, pts = info
@@ -978,12 +1551,24 @@ def body(ctx):
                     ctx.disagree("C07: cell2coord differs from the exact (Rat) model beyond the rounding budget",
                                  {"geom": gd, "cell": c, "impl": [x, y], "model": [str(mx), str(my)]})
 
+    # ---- outside the quantifier: informational comparison with the model (evidence only)
+    ireplies = ctx.lean.ask(st.ireqs)
+    diffs = []
+    for req, (impl, tag, case), rep in zip(st.ireqs, st.iinfo, ireplies):
+        k = f"outside_quantifier/{tag}/" + ("agrees_with_model" if impl == rep else "differs_from_model")
+        ctx.hist[k] = ctx.hist.get(k, 0) + 1
+        if impl != rep and len(diffs) < 5:
+            diffs.append({"request": req[:300], "impl": impl[:300], "model": rep[:300], **case})
+    ctx.extra["outside_quantifier_differences"] = diffs
+
     ctx.extra["rule"] = __doc__.split("Cases:")[1].strip()
     ctx.extra["geometries"] = ngeom
     ctx.assumptions += [
-        "theorems are over an ordered field with floor (exact arithmetic); IEEE rounding is covered by the bit-exact "
-        "Float correspondence and by comparing the code with the exact model on points >= 1e-9 cell sizes off every edge",
-        "cell size > 0, nrows, ncols >= 1 (the property's quantifier); numpy argument conversion (atleast_1d/2d, astype) not modelled",
+        "exact-arithmetic theorems are over an ordered field with floor; the rounded-arithmetic theorems assume the standard model "
+        "(relative error <= u per operation; proved for round53 with u = 2^-53). That the C doubles are the round53 instance is "
+        "IEEE-754 (no underflow / overflow in the generated cases) and is checked exactly on every finite point and every cell",
+        "cell size > 0, nrows, ncols >= 1 (the property's quantifier); numpy dtype conversion (astype int64 / float64) not modelled; "
+        "atleast_1d / atleast_2d and the [n, 2] test are modelled (request shapes)",
         "the model converts NaN / out-of-range doubles to long long the x86-64 way (INT64_MIN) and then tests the integers; the kernel (since c8d188e) tests the floored doubles before casting: same cell for every input, compared bit for bit incl. non-finite points",
         "geometry attributes of Grid are plain attributes; re-assigning them (python or numpy scalars) is treated as public API, as the library's own tests do",
     ]
